@@ -1,6 +1,7 @@
 package query
 
 import (
+	"errors"
 	"fmt"
 	"regexp/syntax"
 
@@ -58,6 +59,12 @@ func QToProto(q Q) *webserverv1.Q {
 }
 
 func QFromProto(p *webserverv1.Q) (Q, error) {
+	// A message field that is not set on the wire arrives as nil, and a Q
+	// message can arrive without its oneof set. Both are malformed queries, not
+	// reasons to crash the server.
+	if p == nil {
+		return nil, errors.New("missing query")
+	}
 	switch v := p.Query.(type) {
 	case *webserverv1.Q_RawConfig:
 		return RawConfigFromProto(v.RawConfig), nil
@@ -98,7 +105,7 @@ func QFromProto(p *webserverv1.Q) (Q, error) {
 	case *webserverv1.Q_Meta:
 		return MetaFromProto(v.Meta)
 	default:
-		panic(fmt.Sprintf("unknown query node %T", p.Query))
+		return nil, fmt.Errorf("unknown query node %T", p.Query)
 	}
 }
 
@@ -459,7 +466,7 @@ func (q *Branch) ToProto() *webserverv1.Branch {
 }
 
 func RawConfigFromProto(p *webserverv1.RawConfig) (res RawConfig) {
-	for _, protoFlag := range p.Flags {
+	for _, protoFlag := range p.GetFlags() {
 		switch protoFlag {
 		case webserverv1.RawConfig_FLAG_ONLY_PUBLIC:
 			res |= RcOnlyPublic
